@@ -66,6 +66,12 @@ Theorem C06_rate_configuration_single_source : forall f u, In (f, u)
 Proof. intros f u H. pose proof pairs_all as A. rewrite forallb_forall in A. exact (A (f, u) H). Qed.
 Print Assumptions C06_rate_configuration_single_source.
 
+(* 3e. Constructing or running any of the ten classes reaches the NumPy global generator only on the recorded path: inside a branch
+       of a test of `self.q0` (ROLEQ without q0) -- never when an initial attitude is supplied; OLEQ draws by nature (see 9). *)
+Theorem C06_global_rng_only_on_recorded_path : forall f, In f all_filters -> rng_guarded f = true.
+Proof. intros f H. pose proof rng_guarded_all as A. rewrite forallb_forall in A. exact (A f H). Qed.
+Print Assumptions C06_global_rng_only_on_recorded_path.
+
 (* 4. Non-interference, over the store semantics of the effect language with UNINTERPRETED value functions (mix, wr, gl, test,
       count): if the checker accepts entry point u of filter f (allowing the global state G and the extra attributes E) then,
       in two worlds that agree on instance i's configuration + carried state (+ E, G), the call returns the same value and the
